@@ -41,20 +41,26 @@ Theorem C17_no_mixin_surface_when_none_listed : forall cfg k,
 Proof. exact no_mixin_methods_when_none_listed. Qed.
 Print Assumptions C17_no_mixin_surface_when_none_listed.
 
-(* every key a client method looks up in _wrapped_methods is a key of the table — for the mixin methods always, for the
-   legacy IAM methods on the synchronous client (they wrap the transport property themselves) *)
-Theorem C17_mixin_lookup_total_partial : forall cfg k own m key,
-  c_add_iam cfg = false \/ k = Sync ->
+(* every key a mixin or legacy-IAM client method looks up in _wrapped_methods is a key of the table of the transport it
+   runs on, for both clients and every configuration.  (Until /repo bb707ed the legacy IAM methods of the asyncio client
+   refuted this — DESIGN section 9 no. 3; the witness stays in corpus/C17 and is driven on every run.) *)
+Theorem C17_mixin_lookup_total : forall cfg k own m key,
   In m (client_methods k cfg) -> m_lookup m = Some key -> In key (table_keys cfg own).
-Proof. exact mixin_lookup_total_partial. Qed.
-Print Assumptions C17_mixin_lookup_total_partial.
+Proof. exact mixin_lookup_total. Qed.
+Print Assumptions C17_mixin_lookup_total.
 
-(* ... and NOT for the legacy IAM methods of the asyncio client: add-iam-methods without the IAM mixin looks up a key
-   the table does not have (KeyError on the real code; replayed by the harness) *)
-Theorem C17_mixin_lookup_total_refuted :
-  exists cfg own m key, In m (client_methods Async cfg) /\ m_lookup m = Some key /\ ~ In key (table_keys cfg own).
-Proof. exact mixin_lookup_total_refuted. Qed.
-Print Assumptions C17_mixin_lookup_total_refuted.
+(* the legacy add-iam-methods client methods index no table: they wrap a transport property, and the gRPC transports have it *)
+Theorem C17_legacy_methods_wrap_existing_property : forall cfg k m,
+  In m (legacy_methods k cfg) -> m_lookup m = None /\ In (m_name m) (grpc_props cfg).
+Proof. exact legacy_methods_wrap_existing_property. Qed.
+Print Assumptions C17_legacy_methods_wrap_existing_property.
+
+Example C17_example_legacy :
+  map (fun m => (m_name m, m_lookup m)) (client_methods Async legacy_cfg) =
+  [("set_iam_policy", None); ("get_iam_policy", None); ("test_iam_permissions", None)] /\
+  grpc_props legacy_cfg = ["set_iam_policy"; "get_iam_policy"; "test_iam_permissions"].
+Proof. exact legacy_cfg_no_lookup. Qed.
+Print Assumptions C17_example_legacy.
 
 (* every mixin key of the table has a stub property on the gRPC transports, so the table can be built *)
 Theorem C17_table_constructible : forall cfg name, In name (mixin_table_keys cfg) -> In name (grpc_props cfg).
